@@ -170,7 +170,7 @@ theorem parseFixed_parts (c : Config) (hdr rec : Layout) (i : Bytes) (h : List N
       subst e1 e2 e3
       exact ⟨⟨_, rfl⟩, countP_mem _ _ _ _ hc⟩
 
-theorem parseV9_ok_inv (c : Config) (st st' : PState) (i : Bytes) (p : Packet) (r : Bytes)
+theorem parseV9_ok_inv_a4 (c : Config) (st st' : PState) (i : Bytes) (p : Packet) (r : Bytes)
     (hp : parseV9 c st i = (st', .ok (p, r))) :
     ∃ h ss r1, p = .v9 h ss ∧ parseLayout c.t.protoFromU8 c.t.v9Hdr i = some (h, r1) := by
   unfold parseV9 at hp
@@ -190,7 +190,7 @@ theorem parseV9_ok_inv (c : Config) (st st' : PState) (i : Bytes) (p : Packet) (
       | panic => simp [hs] at hp
       | overflow => simp [hs] at hp
 
-theorem parseIpfix_ok_inv (c : Config) (st st' : PState) (i : Bytes) (p : Packet) (r : Bytes)
+theorem parseIpfix_ok_inv_a4 (c : Config) (st st' : PState) (i : Bytes) (p : Packet) (r : Bytes)
     (hp : parseIpfix c st i = (st', .ok (p, r))) :
     ∃ h ss r1, p = .ipfix h ss ∧ parseLayout c.t.protoFromU8 c.t.ipHdr i = some (h, r1) := by
   unfold parseIpfix at hp
@@ -249,7 +249,7 @@ theorem parseVersioned_origin (c : Config) (st st' : PState) (kind : Nat) (body 
           | ok pr =>
             obtain ⟨p, r⟩ := pr
             simp only [hp, liftRes, Prod.mk.injEq, Step.ok.injEq] at h
-            obtain ⟨hd, ss, r1, e, hl⟩ := parseV9_ok_inv c _ _ _ _ _ hp
+            obtain ⟨hd, ss, r1, e, hl⟩ := parseV9_ok_inv_a4 c _ _ _ _ _ hp
             rw [← h.2.1, e]; exact .v9 _ _ _ _ hl
           | err => simp [hp, liftRes] at h
           | panic => simp [hp, liftRes] at h
@@ -261,7 +261,7 @@ theorem parseVersioned_origin (c : Config) (st st' : PState) (kind : Nat) (body 
             | ok pr =>
               obtain ⟨p, r⟩ := pr
               simp only [hp, liftRes, Prod.mk.injEq, Step.ok.injEq] at h
-              obtain ⟨hd, ss, r1, e, hl⟩ := parseIpfix_ok_inv c _ _ _ _ _ hp
+              obtain ⟨hd, ss, r1, e, hl⟩ := parseIpfix_ok_inv_a4 c _ _ _ _ _ hp
               rw [← h.2.1, e]; exact .ipfix _ _ _ _ hl
             | err => simp [hp, liftRes] at h
             | panic => simp [hp, liftRes] at h
